@@ -1,6 +1,7 @@
 //! fqv: bounded exhaustive exploration of fast_qr against a reference model (see /verif/DESIGN.md)
 
 mod core;
+mod parse;
 mod pool;
 mod props;
 mod refmodel;
